@@ -121,7 +121,7 @@ ObsStep(o, e) ==
     [] e.ev = "SrvCancel"  -> [o EXCEPT !.srvCancels = @ \cup {e.srvconn}]
     [] e.ev = "CloserStart" -> [o EXCEPT !.closerStart = @ \cup {e.cli}]
     [] e.ev = "CloserEnd"   -> [o EXCEPT !.closerEnd = @ \cup {e.cli}]
-    [] e.ev = "DialStart"   -> [o EXCEPT !.keepaliveViol = IF o.scName = "c17.keepalive" /\ o.healthyPhase /\ ~e.first THEN @ \cup {"healthy-link-redialled"} ELSE @,
+    [] e.ev = "DialStart"   -> [o EXCEPT !.keepaliveViol = IF o.scName \in {"c17.keepalive", "c05.outage"} /\ o.healthyPhase /\ ~e.first THEN @ \cup {"healthy-link-redialled"} ELSE @,
                                          !.dials = @ + 1, !.dialsAfterClose = IF e.cli \in o.closerEnd THEN @ + 1 ELSE @,
                                          !.redialsNoReconnect = IF ~e.first /\ o.cfgNoReconnect THEN @ + 1 ELSE @,
                                          !.badBackoff = IF ~e.first /\ ~o.backoffSeen /\ o.cfgHooks THEN @ + 1 ELSE @,
@@ -182,6 +182,11 @@ Always_C18(o) == IF o.dialsAfterClose > 0 THEN {<<"C18", "redial-after-close", 0
 \* C05: redial discipline and error mapping
 Always_C05(o) ==
   (IF o.badBackoff > 0 THEN {<<"C05", "redial-without-proper-backoff", 0>>} ELSE {})
+  \* once healed the link is as good as the first one (keepalive included): no call fails on it, it is not dropped
+  \cup (IF o.scName = "c05.outage" THEN {<<"C05", "healed-" \o cl, 0>> : cl \in o.keepaliveViol} ELSE {})
+  \cup {<<"C05", "call-failed-on-healed-link:" \o o.call[t].outcome, t>> :
+          t \in {t \in Calls(o) : o.scName = "c05.outage" /\ o.call[t].startedHealthy /\ o.call[t].endedHealthy /\ o.call[t].ends >= 1
+                                  /\ o.call[t].outcome \notin {"ok", "herr"}}}
   \cup (IF o.redialsNoReconnect > 0 THEN {<<"C05", "no-reconnect-client-redialled", 0>>} ELSE {})
   \cup {<<"C05", "connection-error-mapping", t>> :
           t \in {t \in Calls(o) : o.call[t].outcome = "conn" /\ o.call[t].tr = "ws" /\ o.call[t].detail # (IF o.cfgErrors THEN "typed" ELSE "generic")}}
@@ -221,7 +226,7 @@ Always_C16(o) ==
 
 \* C17: a healthy link is never dropped; a silent peer is noticed, pending calls fail and a redial starts
 Always_C17(o) ==
-  {<<"C17", cl, 0>> : cl \in o.keepaliveViol}
+  (IF o.scName = "c17.keepalive" THEN {<<"C17", cl, 0>> : cl \in o.keepaliveViol} ELSE {})
   \cup {<<"C17", "call-failed-on-healthy-link:" \o o.call[t].outcome, t>> :
           t \in {t \in Calls(o) : o.scName = "c17.keepalive" /\ o.call[t].startedHealthy /\ o.call[t].endedHealthy /\ o.call[t].ends >= 1
                                   /\ o.call[t].outcome \notin {"ok", "herr"}}}
